@@ -48,9 +48,12 @@ TRUSTED = ["CPython's operators, str() and slice() enter the model as a finite t
            "a scenario ends at the first pull() that raises (which upstream nodes ran before the failure depends on "
            "label order of hashed labels, which the model does not predict)"]
 ASSUMPTIONS = ["hash of the nominal label is injective (Section hypothesis hash_inj)",
-               "user node labels do not collide with injected labels; user nodes are plain function nodes without "
-               "executors; raw operands are never NOT_DATA",
-               "Node.pull of an injected node = run the upstream closure, then the node (C11 covers pull itself)"]
+               "user node labels do not collide with injected labels; user nodes are plain function nodes with at "
+               "least one value-holding input, without executors; raw operands are never NOT_DATA; values of user "
+               "nodes do not change during a scenario",
+               "Node.pull of an injected node = run the upstream closure (through parent.run() inside a Workflow, "
+               "including the Workflow's own input cache as keyed during run_data_tree's temporary renaming), then the "
+               "node itself; pull as such is property C11's subject, the composite cache C05's"]
 
 
 # ---- harness node classes (module level: the library reads their source) --------------------
